@@ -3,7 +3,8 @@
 Proof: lean/CssVerif/Props/C05.lean (for every setting of the preferences the value written re-parses to the same
 value; two words appended to `Out` are always separated by white space, whatever the spacer strings are).
 Tie: `out` (the transcription of Out.append / Out.value against the real class on random sequences of appends
-under random preferences), `vser` (C03).
+under random preferences), `vser` (C03), `omit` (which rules and declarations are written under the omission
+preferences: Model/Omit.lean against the real serialiser and parser, see props/c05o.py).
 Search: a pairwise-covering array plus random points of the preference space (18 booleans, 9 strings incl.
 useMinified) x sheets from the grammar G and the repository's sample sheets: serialising succeeds and the text
 re-parses to the model of the default serialisation transformed by exactly what the preferences are documented
@@ -17,6 +18,7 @@ import random
 import time
 
 from .. import corr, lib, pipeline as P, sheetgen as G
+from . import c05o
 
 PROP = 'C05'
 
@@ -318,6 +320,12 @@ def run(tier, seed):
         c, line, e, g = resO['mismatches'][0]
         broken.append('correspondence op `out` diverges on %d inputs; first prefs=%r ops=%r: impl=%s model=%s' % (
             resO['n_mismatch'], c[0], c[3], e[:160], g[:160]))
+    mc = c05o.cases(tier, seed, 650 if tier == 'quick' else 13000)
+    resM = corr.run('c05omit', mc, c05o.omit_line, c05o.omit_py, c05o.skipped, chunk=100, judge=c05o.judge)
+    if resM['n_mismatch']:
+        c, line, e, g = resM['mismatches'][0]
+        broken.append('correspondence op `omit` diverges on %d inputs; first prefs=%r sheet=%r: %s impl=%s model=%s' % (
+            resM['n_mismatch'], short(c[1]) if not c[1].get('minified') else c[1], c05o.build(c)[1][:300], line[:200], e[:160], g[:160]))
     rnd = random.Random(seed * 7 + 1)
     rows = pairwise(rnd)
     n_random = 150 if tier == 'quick' else 12000
@@ -335,21 +343,27 @@ def run(tier, seed):
     for case, why in res['oracle_fail'][:8]:
         findings.add('prefs', repr(short(case[1])) + ' seed %d' % case[0], why)
     coverage = {
-        'evaluations': res['n'] + resO['n'],
-        'distinct_nontrivial': res['n'] + resO['n'],
+        'evaluations': res['n'] + resO['n'] + resM['n'],
+        'distinct_nontrivial': res['n'] + resO['n'] + resM['n'],
         'rule': 'a greedy pairwise-covering array over 18 boolean and 9 string-valued preferences (%d rows: every pair of values '
                 'of two different preferences occurs) x %d sheets each, plus %d random points incl. useMinified, x sheets '
                 'from the grammar G (half of them extended by an empty rule, duplicate declarations, an unused namespace; '
                 'layouts and spellings vary) and the repository\'s sample sheets (%d): serialising must not raise and the text '
                 're-parses to the model of the sheet transformed by what the preferences are documented to omit.  '
                 'Correspondence: random sequences of 1-10 Out.append calls (8 types x 35 values x flags) under random '
-                'spacer strings, line separators, indents, levels, then Out.value' % (len(rows), per_row, n_random,
-                                                                                    len(sample_sheets())),
-        'traces_validated_against_impl': resO['n'],
+                'spacer strings, line separators, indents, levels, then Out.value.  Correspondence `omit`: %d abstract sheets '
+                '(60%% from the abstract generator, 10%% grammar G, 20%% character mutations, 10%% changed through the API) x the '
+                '2^7 settings of the omission preferences and useMinified in turn: the output re-parsed and reduced equals '
+                '`written` of the model; %d not compared (the text does not re-parse to the sheet even with every '
+                'keep-preference at keep: escapes, malformed unknown rules)' % (
+                    len(rows), per_row, n_random, len(sample_sheets()), resM['n'], resM['n_oracle_fail']),
+        'traces_validated_against_impl': resO['n'] + resM['n'] - resM['n_oracle_fail'],
         'exhaustive': False,
-        'distribution': {'pairwise rows': len(rows), 'preference points': len(cases), 'append sequences': resO['n']},
+        'distribution': {'pairwise rows': len(rows), 'preference points': len(cases), 'append sequences': resO['n'],
+                         'omit sheets': resM['n'], 'omit (first 650)': c05o.distribution(mc[:650])},
         'samples': [repr(short(cases[i][1])) for i in (0, len(cases) // 2, len(cases) - 1)],
-        'correspondence_mismatches': resO['n_mismatch'],
+        'correspondence_mismatches': resO['n_mismatch'] + resM['n_mismatch'],
+        'omission_findings_reproduced': [w for w, _src, _row, _got, ok in c05o.replay_findings() if ok],
         'oracle_failures': res['n_oracle_fail'],
     }
     assumptions = ['spacer-like preferences are strings of white space (possibly empty); a separator of other characters is text '
